@@ -30,7 +30,7 @@ MANIFEST = dict(
          "inside a lambda is declared by an enclosing scope (the complement is known finding freeze-late-local-declaration, refuted in Coq), "
          "evaluating the original expression and evaluating the frozen one - in a store where outer variables it does not keep have been "
          "reassigned arbitrarily - give related values (equal data, closures with freeze-related bodies), the same output and the same "
-         "outcome, for every fuel, store and argument tuple (simulation, 3.7k lines). Every run executes ~800 generated lambdas x 3 argument "
+         "outcome, for every fuel, store and argument tuple (simulation, 4.8k lines of Coq). Every run executes ~800 generated lambdas x 3 argument "
          "tuples, frozen and unfrozen, before and after reassigning an outer variable / swapping + and * / changing a precedence, on the "
          "implementation and on the extracted model, plus a corpus of 23 directed cases.",
     note="Trusted: Coq kernel; hand-written models Lang/FreezeLang.v (evaluator) and Lang/Freeze.v (freeze), tied to /repo only by the "
